@@ -208,7 +208,7 @@ impl ZerokitMerkleTree for PmTree {
         self.tree
             .set_range(start, v.clone().into_iter())
             .map_err(|e| Report::msg(e.to_string()))?;
-        for i in start..v.len() {
+        for i in start..start + v.len() {
             self.cached_leaves_indices[i] = 1
         }
         Ok(())
@@ -270,9 +270,12 @@ impl ZerokitMerkleTree for PmTree {
     }
 
     fn update_next(&mut self, leaf: FrOf<Self::Hasher>) -> Result<()> {
+        let index = self.tree.leaves_set();
         self.tree
             .update_next(leaf)
-            .map_err(|e| Report::msg(e.to_string()))
+            .map_err(|e| Report::msg(e.to_string()))?;
+        self.cached_leaves_indices[index] = 1;
+        Ok(())
     }
 
     fn delete(&mut self, index: usize) -> Result<()> {
